@@ -11,7 +11,7 @@
    every handle range, every uuid value, every out_size >= 23 (= every MTU), every connection state. *)
 From BT Require Import Base.ListX AttDb.AttDbModel AttDb.AttDbSpec AttDb.AttDbProofs AttDb.AttDbExamples NQueue.NQueueModel
   AttSrv.AttSrvModel AttSrv.AttSrvSpecC02 AttSrv.AttSrvSpecC03 AttSrv.AttSrvProofsC02 AttSrv.AttSrvProofsC03
-  AttSrv.AttSrvExamplesDisc.
+  AttSrv.AttSrvProofsDiscMon AttSrv.AttSrvExamplesDisc.
 Local Open Scope N_scope.
 
 (* ---- (1) Discover All Primary Services: the response to  10 lo hi 00 28  is determined by W, the
@@ -84,10 +84,31 @@ Theorem C03_discover_primary_service_by_uuid :
 Proof. exact fbtv_discover_all. Qed.
 Print Assumptions C03_discover_primary_service_by_uuid.
 
-(* ---- what is NOT a theorem: "the executable monitor c03_monitor accepts every trace of the model". It needs
-   the decoding of the encodings above (handles < 65536 etc.); it is checked by the tie on every run only. *)
+(* ---- (4) the executable monitor (all clauses: primary_only, group_range, group_uuid, services_exact,
+   services_enumerated, invalid_range, shape) accepts the model's trace: for every wf configuration without
+   include_service<>, every request history of ANY length (requests of bytes), from EVERY state and monitor
+   state consistent with the declaration - provided the model does not answer FAULT in it. (FAULT = an
+   out-of-range access / failing assert of the code = C01 (a), which is proved only for the requests that touch no
+   attribute; the tie checks it with ASan on every run.) Proof: per step, the byte-exact responses (1), (2) are
+   decoded by the monitor's parser into the reported groups (decode after encode, handles < 65536), judged Ok,
+   and the session invariant "handles collected so far ++ what is still in range = what the first request
+   has to enumerate" is preserved; induction over the history. *)
+Theorem C03_monitor_accepts_model_partial :
+  forall c, wf c -> no_includes c ->
+    forall ops st, forallb op_bytes ops = true ->
+      Forall (fun p => snd p <> OFault) (srv_run c st ops) ->
+      c03_monitor c (srv_run c st ops) = None.
+Proof.
+  intros c Hw Hn ops st Hb Hf. apply c03_monitor_accepts; auto. apply mon_ok_init.
+Qed.
+Print Assumptions C03_monitor_accepts_model_partial.
+
+(* the statement without the "no FAULT" premise (connection numbers < 3 as the drivers produce them): NOT
+   proved - it needs C01 (a) for the two requests in every reachable state *)
 Definition C03_monitor_accepts_model_full : Prop :=
-  forall c ops, wf c -> no_includes c -> c03_monitor c (srv_run c (srv_init c) ops) = None.
+  forall c ops, wf c -> no_includes c -> forallb op_bytes ops = true ->
+    forallb (fun o => match o with OpIn cid _ _ => Nat.ltb cid n_conns | _ => true end) ops = true ->
+    c03_monitor c (srv_run c (srv_init c) ops) = None.
 
 (* ---- non-vacuity / witnesses. cfg_secondary: 1820 (secondary, 1..3), 1821 (4..6), 128 bit (secondary, 7..9),
    128 bit (10..12), 1822 (secondary, 13..15) *)
